@@ -47,6 +47,14 @@ type ReadCase struct {
 	NoGate bool `json:"nogate"`
 	// Sched, if present, is one more delivery schedule to try (cases made from a recorded run carry theirs).
 	Sched []int `json:"sched,omitempty"`
+	// Dist: CsvReader!Disturbed(recs), what the disturbed reader must print
+	Dist []struct {
+		What   string  `json:"what"`
+		NR     int     `json:"nr"`
+		Text   hx.BS   `json:"text"`
+		Fields []hx.BS `json:"fields"`
+		NoText bool    `json:"notext"`
+	} `json:"dist"`
 }
 
 // RTCase is one line exported by Gen_CsvRoundTrip.
@@ -416,7 +424,95 @@ func replayRead(raw json.RawMessage) hx.Outcome {
 				renderSeen(whole, wholeNames), renderSeen(seen, names), src)
 		}
 	}
+	if c.Judge {
+		if o := replayDisturbed(&c, mode, input, cls); o != nil {
+			return *o
+		}
+	}
 	return hx.OK(len(c.Recs) >= 1 && n >= 2)
+}
+
+// DisturbProgram reads the same input while doing, between the reads of the fields of a record, the other things
+// that touch the reader's and the record's storage: a two-argument split() of the record (CSV-parsed in this mode),
+// a `getline var` (which takes the NEXT record's text without touching the current fields), and `$0 = $0`.
+// Every line it prints has the shape of the dump rule, so the same parser reads it:
+//   the record; (plain records) the pieces of split as a pseudo-record without text; the record again;
+//   the text getline var delivered as a pseudo-record without fields; the record again; (plain) after $0 = $0;
+//   (plain next record) after $0 = that text, which must then have that record's fields.
+func DisturbProgram(mode string) string {
+	dump := `printf "%d:%d:%d:%s", NR, NF, length($0), $0; for (i = 1; i <= NF; i++) printf "%d:%s", length($i), $i; printf "\n"`
+	return "BEGIN { INPUTMODE = " + hx.AwkString([]byte(mode)) + " }\n" +
+		"{ " + dump + "\n" +
+		`  plain = ($0 !~ /["\r\n]/)` + "\n" +
+		`  n = split($0, parts); if (plain) { printf "%d:%d:0:", NR, n; for (i = 1; i <= n; i++) printf "%d:%s", length(parts[i]), parts[i]; printf "\n" }` + "\n" +
+		"  " + dump + "\n" +
+		`  got = ((getline nxt) > 0); if (got) { printf "%d:0:%d:%s\n", NR, length(nxt), nxt }` + "\n" +
+		"  " + dump + "\n" +
+		`  if (plain) { $0 = $0; ` + dump + " }\n" +
+		`  if (got && nxt !~ /["\r\n]/) { $0 = nxt; ` + dump + " }\n}\n" + dumpEnd
+}
+
+func replayDisturbed(c *ReadCase, mode string, input []byte, cls string) *hx.Outcome {
+	src := DisturbProgram(mode)
+	prog, perr := parser.ParseProgram([]byte(src), nil)
+	if perr != nil {
+		o := hx.Outcome{Skipped: true, Note: "generated program rejected: " + perr.Error()}
+		return &o
+	}
+	res := hx.RunProg(prog, nil, &interp.Config{Stdin: bytes.NewReader(input)})
+	desc := fmt.Sprintf("INPUTMODE=%q input=%q, reader that also calls split(), getline var and $0 = $0", mode, input)
+	ret := func(o hx.Outcome) *hx.Outcome { return &o }
+	if res.Panic != nil {
+		return ret(hx.Fail(fmt.Sprintf("C08/%s/disturbed/panic", cls), fmt.Sprintf("panic: %v; %s", res.Panic, desc), nil, res.PanicStk, src))
+	}
+	if res.Err != nil {
+		return ret(hx.Fail(fmt.Sprintf("C08/%s/disturbed/error", cls), fmt.Sprintf("run failed: %v; %s", res.Err, desc), nil, res.Err.Error(), src))
+	}
+	seen, _, ok := ParseOutput(res.Stdout)
+	if !ok {
+		return ret(hx.Fail(fmt.Sprintf("C08/%s/disturbed/output", cls), "program output is garbled; "+desc, nil, string(res.Stdout), src))
+	}
+	// the expected sequence is the specification's (CsvReader!Disturbed), exported with the case
+	type exp struct {
+		nr     int
+		text   []byte
+		fields []hx.BS
+		noText bool
+		what   string
+	}
+	if c.Dist == nil {
+		return nil // a case rebuilt from a recorded trace carries no disturbed view
+	}
+	var want []exp
+	for _, d := range c.Dist {
+		want = append(want, exp{d.NR, d.Text.Bytes(), d.Fields, d.NoText, d.What})
+	}
+	render := func() string {
+		var sb strings.Builder
+		for _, w := range want {
+			fmt.Fprintf(&sb, "%s: NR=%d $0=%q fields=%q\n", w.what, w.nr, w.text, bss(w.fields))
+		}
+		return sb.String()
+	}
+	if len(seen) != len(want) {
+		return ret(hx.Fail(fmt.Sprintf("C08/%s/disturbed/fields", cls), fmt.Sprintf("%d lines printed, %d expected; %s", len(seen), len(want), desc),
+			render(), renderSeen(seen, nil), src))
+	}
+	for k, w := range want {
+		s := seen[k]
+		bad := s.NR != w.nr || len(s.Fields) != len(w.fields)
+		for j := 0; !bad && j < len(w.fields); j++ {
+			bad = !bytes.Equal(s.Fields[j], w.fields[j].Bytes())
+		}
+		if !bad && !w.noText {
+			bad = !bytes.Equal(normText(s.Line), normText(w.text))
+		}
+		if bad {
+			return ret(hx.Fail(fmt.Sprintf("C08/%s/disturbed/fields", cls), fmt.Sprintf("line %d (%s) differs; %s", k+1, w.what, desc),
+				render(), renderSeen(seen, nil), src))
+		}
+	}
+	return nil
 }
 
 // ---------------------------------------------------------------- round trip
